@@ -652,3 +652,53 @@ def f_lexpos(repo):
         failed.append({"obligation": "C14:F-lexpos: next_token begins by consuming one byte and yields the end-of-file token exactly when there is none (found `%s`)" % " ".join(head[:12]),
                        "site": "%s:next_token:head" % LEX, "file": rel, "line": src.t(po).line, "fn": "next_token", "probe": TILING_PROBE})
     return {"name": "F-lexpos", "obligations": n, "failed": failed, "samples": samples}
+
+
+# =====================================================================================
+# gcnative (C03): BOUNDED stand-in for the collector - exhaustive enumeration of small heaps on the
+# real gc/mod.rs + gc/trace.rs (extracted verbatim, compiled natively).  Registered here because it
+# is neither a Kani harness nor a Verus lemma; the driver counts it as BOUNDED, never as proof.
+# =====================================================================================
+import subprocess
+import tempfile
+import shutil
+import re as _re
+import extract as _extract
+
+
+@frame.frame("C03")
+def g_gcnative(repo):
+    tier = os.environ.get("VERIF_TIER_EFFECTIVE", "quick")
+    maxn = 4 if tier == "thorough" else 3
+    tpl = os.path.join(os.path.dirname(os.path.dirname(os.path.abspath(__file__))), "units", "gcnative", "unit.rs")
+    ub = _extract.build_unit(tpl, repo)          # LostAnchor propagates: exit 2
+    d = tempfile.mkdtemp(prefix="gcnative", dir=os.environ.get("VERIF_SCRATCH") or "/var/tmp")
+    try:
+        src = os.path.join(d, "gcn.rs")
+        open(src, "w").write(ub.text)
+        p = subprocess.run(["rustc", "-O", "--edition", "2024", "gcn.rs", "-o", "gcn"], cwd=d, stdout=subprocess.PIPE, stderr=subprocess.STDOUT, text=True, timeout=600)
+        if p.returncode != 0:
+            raise LostAnchor("gcnative: the extracted collector does not compile with the harness (%s)" % p.stdout[-300:].replace("\n", " "))
+        try:
+            r = subprocess.run([os.path.join(d, "gcn"), str(maxn)], stdout=subprocess.PIPE, stderr=subprocess.STDOUT, text=True, timeout=3600)
+        except subprocess.TimeoutExpired:
+            raise LostAnchor("gcnative: enumeration did not finish in 3600 s")
+        m = _re.search(r"GCNATIVE heaps=(\d+) failures=(\d+) maxn=(\d+)", r.stdout)
+        if not m:
+            raise LostAnchor("gcnative: no result line (exit %s): %s" % (r.returncode, r.stdout[-300:].replace("\n", " ")))
+        heaps, fails = int(m.group(1)), int(m.group(2))
+        res = {"name": "gcnative", "obligations": heaps, "failed": [], "samples": [], "strength": "bounded",
+               "bound": "every heap of 0..%d nodes: each node allocated by alloc or alloc_view, two edge slots each empty or pointing to any node, each external handle kept as Gc / kept as GcView / dropped; per heap: collect, collect again, then drop the kept handles one at a time collecting after each" % maxn,
+               "fragments": ub.fragments}
+        if fails:
+            fm = _re.search(r"GCNATIVE first-failure (.*)", r.stdout)
+            w = fm.group(1) if fm else "?"
+            res["failed"].append({"obligation": "C03:gcnative: after a collection exactly the objects reachable from the kept handles survive and all of them can still be visited - %d of %d enumerated heaps fail; first: %s" % (fails, heaps, w),
+                                  "site": "gc/mod.rs:gc", "file": LANG + "/gc/mod.rs", "line": 0, "fn": "gc", "probe": GCT_PROBE,
+                                  "native_witness": w, "failed_count": fails})
+            res["obligations_failed_count"] = fails
+        else:
+            res["samples"].append("C03:gcnative: %d heaps of <= %d nodes: survivors == reachable set, every survivor can be visited, second collection idempotent, everything reclaimed once all handles are dropped" % (heaps, maxn))
+        return res
+    finally:
+        shutil.rmtree(d, ignore_errors=True)
